@@ -49,7 +49,7 @@ class _Blocked(BaseException):
     pass
 
 
-ALIASES = {'AbortVoted': 'Abort', 'AbortStaged': 'Abort', 'EarlyStore': 'Store', 'StaleStore': 'Store', 'RestoreAny': 'Restore', 'AbortFailed': 'Abort', 'NewOidQ': 'NewOid', 'CloseReopenQ': 'CloseReopen', 'DeleteQ': 'Delete'}
+ALIASES = {'PackQ': 'Pack', 'AbortVoted': 'Abort', 'AbortStaged': 'Abort', 'EarlyStore': 'Store', 'StaleStore': 'Store', 'RestoreAny': 'Restore', 'AbortFailed': 'Abort', 'NewOidQ': 'NewOid', 'CloseReopenQ': 'CloseReopen', 'DeleteQ': 'Delete'}
 
 
 class StorageReplayer:
@@ -176,6 +176,10 @@ class StorageReplayer:
                     st.checkCurrentSerialInTransaction(p64(0), z64, other)
                 elif call == 'delete':
                     st.deleteObject(p64(0), z64, other)
+            elif action == 'Pack':
+                sec, gc = args
+                from ZODB.serialize import referencesf
+                st.pack(clock.T0 + sec + 0.5, referencesf, gc=bool(gc))
             elif action == 'NewOid':
                 oid = st.new_oid()
                 extra['oid'] = u64(oid)
@@ -209,8 +213,10 @@ class StorageReplayer:
             signal.setitimer(signal.ITIMER_REAL, 0)
             signal.signal(signal.SIGALRM, old_handler)
         out = []
-        if want == 'resolved':
-            want = 'ok'
+        if want in ('resolved', 'nothing-freed', 'redundant', 'empty', 'same-time'):
+            want = 'ok'           # not distinguishable from the call's return value; the history comparison decides
+        if action == 'Pack' and got == 'POSKeyError':
+            got = 'KeyError'
         if got != want:
             out.append('%s%r: spec outcome %s, implementation %s' % (action, tuple(norm(args)), want, got))
         else:
@@ -320,8 +326,31 @@ class StorageReplayer:
         obs['len'] = len(st)
         return obs
 
-    def compare(self, model_obs, first=()):
+    def compare(self, model_obs, first=(), hist=None, ltid=None):
         mo = norm(model_obs)
+        if hist is not None and self.kind == 'file' and any(t['status'] == 'p' for t in hist):
+            # Below a pack only what hangs on the record chain is promised (F17, DESIGN 6/C07): a packed
+            # record has no previous-record pointer, so per oid the chain consists of the revisions in
+            # unpacked transactions plus the newest revision in a packed one.
+            vis = {}
+            for t in hist:
+                for r in t['recs']:
+                    v = vis.setdefault(r['oid'], {'p': None, 'u': set()})
+                    if t['status'] == 'p':
+                        v['p'] = t['tid']
+                    else:
+                        v['u'].add(t['tid'])
+            visible = {o: (v['u'] | ({v['p']} if v['p'] is not None else set())) for o, v in vis.items()}
+            mo = dict(mo)
+            mo['lb'] = {o: {t: a for t, a in dict(row).items()
+                            if not (a['k'] == 'rev' and a['serial'] not in visible.get(o, ()))}
+                        for o, row in mo['lb'].items()}
+            mo['ser'] = {o: {t: a for t, a in dict(row).items() if a['k'] != 'rev' or t in visible.get(o, ())}
+                         for o, row in mo['ser'].items()}
+            mo['revs'] = {o: tuple(t for t in row if t in visible.get(o, ())) for o, row in mo['revs'].items()}
+            self._visible = visible
+        else:
+            self._visible = None
         try:
             real = self.observe(mo, first)
         except Exception as ex:
@@ -332,6 +361,8 @@ class StorageReplayer:
             mo = dict(mo)
             mo.pop('ulog', None)
             mo['iter'] = tuple(dict(t, recs=tuple(sorted(t['recs'], key=lambda x: x['oid']))) for t in mo['iter'])
+        if ltid is not None:
+            mo = dict(mo, last=ltid)
         out = []
         diff('obs', mo, real, out)
         return out
@@ -397,6 +428,7 @@ def replay_behaviour(job):
             result['sig'].append(a + repr(tuple(norm(step['args']))))
             mm = rp.step(a, step['args'], step['state'])
             what = 'outcome'
+            ltid = step['state'].get('ltid')
             if not mm:
                 what = 'obs'
                 if sparse and ALIASES.get(a, a) not in ('Finish', 'CloseReopen', 'Init'):
@@ -411,9 +443,9 @@ def replay_behaviour(job):
                         rp.poke(rng)
                 elif sparse and a == 'Finish':
                     h = norm(step['state']['hist'])
-                    mm = rp.compare(step['state']['obs'], first=[r['oid'] for r in h[-1]['recs']][::-1])
+                    mm = rp.compare(step['state']['obs'], first=[r['oid'] for r in h[-1]['recs']][::-1], hist=h, ltid=ltid)
                 else:
-                    mm = rp.compare(step['state']['obs'])
+                    mm = rp.compare(step['state']['obs'], hist=norm(step['state']['hist']), ltid=ltid)
             if not mm and kind == 'file' and opts and opts.get('bytes_check'):
                 mm = rp.bytes_check(ALIASES.get(a, a), norm(step['state']['res']))
                 what = 'bytes'
